@@ -50,7 +50,10 @@ BYID = {p['id']: p for p in POOL}
 # (pool id of the target call, overrides giving the earlier call's input size on the same instance)
 SAME = [('d1_db3_sym', dict(N=5, J=2)), ('d1_db3_sym', dict(N=40)), ('d1_coif1_sym', dict(N=7)), ('d2_db2_sym', dict(H=3, W=4)), ('d2_db2_per', dict(H=12, W=5)),
         ('swt_db2', dict(H=8, W=4)), ('dtf_a', dict(H=2, W=2)), ('dtf_a', dict(H=16, W=12)), ('dti_06', dict(H=4, W=4)), ('d2i_db2_zero', dict(H=9, W=5)),
-        ('d1i_bior22_zero', dict(N=6)), ('d1_deep', dict(N=20)), ('d1_deep', dict(N=9))]
+        ('d1i_bior22_zero', dict(N=6)), ('d1_deep', dict(N=20)), ('d1_deep', dict(N=9)),
+        # ... or an input of another precision (rejected or not, it must not leave the instance changed)
+        ('d1i_bior22_zero', dict(f32=True)), ('d2i_db2_zero', dict(f32=True)), ('d1_db3_sym', dict(f32=True)), ('d2_db2_sym', dict(f32=True)),
+        ('swt_db2', dict(f32=True)), ('dtf_a', dict(f32=True)), ('dti_06', dict(f32=True))]
 
 
 def configs(tier, seed):
